@@ -29,6 +29,7 @@ type col struct {
 	T     string `json:"t"`
 	U     string `json:"u"`
 	Rows  []row  `json:"rows"`
+	FRows []row  `json:"frows"` // the same report with entries (function, file)
 	Total int64  `json:"total"`
 }
 type ccase struct {
@@ -140,8 +141,9 @@ func check(raw json.RawMessage, c *ccase) {
 		}
 		return p.Copy(), nil
 	}
+	gran := "-functions"
 	runTop := func(f func(string) (*profile.Profile, error), srcs []string, extra []string, k col) (string, int64, bool, error) {
-		args := append([]string{"-top", "-functions", "-flat", "-nodecount=0", "-nodefraction=0", "-edgefraction=0",
+		args := append([]string{"-top", gran, "-flat", "-nodecount=0", "-nodefraction=0", "-edgefraction=0",
 			"-sample_index=" + k.T, "-unit=" + k.U}, extra...)
 		args = append(args, "-output=out")
 		args = append(args, srcs...)
@@ -173,6 +175,15 @@ func check(raw json.RawMessage, c *ccase) {
 		}
 		if total != k.Total {
 			run.Violate("top", sig(c, "total"), fmt.Sprintf("column %s: total %d want %d", k.T, total, k.Total), raw, conc)
+		}
+		// the same with (function, file) entries: functions of one name in different files stay apart
+		gran = "-filefunctions"
+		gotF, _, _, err := runTop(fetch, srcNames, flags, k)
+		gran = "-functions"
+		if err != nil {
+			run.Violate("top", sig(c, "error-filefunctions"), fmt.Sprintf("column %s: %v", k.T, err), raw, conc)
+		} else if want := rowsText(k.FRows); gotF != want {
+			run.Violate("top", sig(c, "rows-filefunctions"), fmt.Sprintf("column %s (%s) at filefunctions granularity, got:\n%s\nwant:\n%s", k.T, k.U, gotF, want), raw, conc)
 		}
 	}
 	// save with -proto, reopen: same report
